@@ -313,8 +313,11 @@ def _sx_edit(x, path, fn):
     return y
 
 
-def case_fails(binary, pid, case, env):
-    """does the case still fail an oracle (harness-side) or the specification (Lean side)?"""
+def case_fails(binary, pid, case, env, want=None, need_dis=False):
+    """does the case still fail an oracle (harness-side) or the specification (Lean side)?  `want`: the
+    beginning of the original failure text – a shrunk case must fail the same way; `need_dis`: the case must
+    also make the implementation differ from the verified model (keeps the shrinker inside the property's
+    domain: outside it the model fails the harness oracle too)"""
     try:
         r = subprocess.run([binary, "exec", pid], input=case + "\n", capture_output=True, text=True, env=env, timeout=60)
     except Exception:
@@ -322,26 +325,34 @@ def case_fails(binary, pid, case, env):
     lines = r.stdout.split("\n")
     if len(lines) < 3 or lines[1].startswith("(bad-arg"):
         return False
-    if lines[2].startswith("FAIL"):
-        return True
     try:
         m = subprocess.run([os.path.join(LEAN, ".lake", "build", "bin", "ippmodel")], input=lines[0] + "\n", capture_output=True, text=True, timeout=60)
     except Exception:
         return False
     mo = m.stdout.strip()
+    spec = None
     if " ## " in mo:
-        spec = mo.split(" ## ", 1)[1]
-        return spec != "-" and not spec.startswith("(bad") and spec != lines[1]
-    return False
+        mo, spec = mo.split(" ## ", 1)
+    if mo.startswith("(bad"):
+        return False
+    dis = mo != lines[1] and mo != "(model-skipped)"
+    if need_dis and not dis:
+        return False
+    if lines[2].startswith("FAIL"):
+        return want is None or lines[2][5:].startswith(want)
+    if want is not None and not want.startswith("implementation differs"):
+        return False
+    return spec is not None and spec != "-" and not spec.startswith("(bad") and spec != lines[1]
 
 
-def shrink_case(binary, pid, case, budget_s=45, max_tries=400):
+def shrink_case(binary, pid, case, budget_s=45, max_tries=400, want=None):
     """greedy deletion / truncation; returns a smaller case that still fails (or the original)"""
     if isinstance(binary, list):
         binary = binary[0]
     env = dict(os.environ, IPPUTIL_BIN=os.path.join(UTIL_TARGET, "release", "ipputil"))
     top = _sx_parse(case)
-    if top is None or not case_fails(binary, pid, case, env):
+    need_dis = case_fails(binary, pid, case, env, want, True)
+    if top is None or not case_fails(binary, pid, case, env, want):
         return case
     t0 = time.time()
     tries = 0
@@ -369,7 +380,7 @@ def shrink_case(binary, pid, case, budget_s=45, max_tries=400):
             for cand in cands:
                 tries += 1
                 line = " ".join(_sx_show(c) for c in cand)
-                if len(line) < len(" ".join(_sx_show(c) for c in top)) and case_fails(binary, pid, line, env):
+                if len(line) < len(" ".join(_sx_show(c) for c in top)) and case_fails(binary, pid, line, env, want, need_dis):
                     top = cand
                     progress = True
                     break
@@ -484,7 +495,7 @@ def check(pid, tier):
         small = case
         if j == 0 and harness_ok and driver_ok:
             try:
-                small = shrink_case(binary, pid, case)
+                small = shrink_case(binary, pid, case, want=text[:24])
             except Exception as e:
                 notes.append(f"shrinking failed: {e}")
         p = write_replay(rundir, pid, f"o{j}", {"property": pid, "kind": "oracle-failure", "case_index": i, "case": small,
